@@ -53,11 +53,24 @@ _CHECK = None
 _KNOWN_KEYS = set()
 
 
+_RUNS_SINCE_COLLECT = 0
+
+
 def _fresh():
-    """Every run starts from the process-global state of a fresh interpreter (see sim.world)."""
+    """Every run starts from the process-global state of a fresh interpreter (see sim.world) - and without garbage of earlier runs:
+    an abandoned generator of instrumented code that sits in a reference cycle is finalised whenever the cyclic collector happens to
+    run, and the bytecodes of its finally-block would be counted into the CURRENT run's pre-emption plan.  So the cyclic
+    collector is off while a run executes and only runs between runs (runs are short; reference counting still frees everything that is not in a cycle)."""
+    import gc
     from .world import install, reset_coba_globals
     install()
     reset_coba_globals()
+    global _RUNS_SINCE_COLLECT
+    gc.disable()
+    _RUNS_SINCE_COLLECT += 1
+    if _RUNS_SINCE_COLLECT >= 64:       # (between runs, now and then: bounds memory; never while a run executes)
+        _RUNS_SINCE_COLLECT = 0
+        gc.collect()
 
 
 def _worker_init(factory_mod, factory_name):
